@@ -44,9 +44,10 @@ theorem expiry_unchecked_is_ub :
 
 /-! ### non-vacuity: both acceptable outcomes occur, also for extreme expiry fields -/
 
-/-- a minimal version-4 URI whose expiry field holds `u` -/
+/-- a minimal version-4 payload whose expiry field holds `u` (the examples below run the payload
+    parser directly, so that they do not depend on the base64 table) -/
 def expiryProbe (u : Nat) : Bytes :=
-  kScheme ++ b64Encode (4 :: (List.replicate 76 0 ++ (appendU64 u ++ List.replicate 10 0)))
+  4 :: (List.replicate 76 0 ++ (appendU64 u ++ List.replicate 10 0))
 
 /-- the decoded tick count, if decoding returned a manifest -/
 def expiryOf : Res Manifest → Option Int
@@ -55,15 +56,14 @@ def expiryOf : Res Manifest → Option Int
 
 example : decodeManifest [] = .invalidArg := by decide
 example : decodeManifest kScheme = .invalidArg := by decide +kernel
-example : expiryOf (decodeManifest (expiryProbe 9223372036)) = some 9223372036000000000 := by decide +kernel
-example : decodeManifest (expiryProbe 9223372037) = .invalidArg := by decide +kernel
-example : decodeManifest (expiryProbe 9223372036854775807) = .invalidArg := by decide +kernel
-example : decodeManifest (expiryProbe 9223372036854775808) = .invalidArg := by decide +kernel
-example : expiryOf (decodeManifest (expiryProbe 18446744073709551615)) = some (-1000000000) := by decide +kernel
-example : expiryOf (decodeManifest (expiryProbe (toU64 (-9223372036)))) = some (-9223372036000000000) := by decide +kernel
-example : decodeManifest (expiryProbe (toU64 (-9223372037))) = .invalidArg := by decide +kernel
-/-- truncating a valid URI's payload by one byte is refused, not read past -/
-example : decodeManifest (kScheme ++ b64Encode (4 :: (List.replicate 76 0 ++ (appendU64 0 ++ List.replicate 9 0)))) = .invalidArg := by
-  decide +kernel
+example : expiryOf (decodePayload (expiryProbe 9223372036)) = some 9223372036000000000 := by decide +kernel
+example : decodePayload (expiryProbe 9223372037) = .invalidArg := by decide +kernel
+example : decodePayload (expiryProbe 9223372036854775807) = .invalidArg := by decide +kernel
+example : decodePayload (expiryProbe 9223372036854775808) = .invalidArg := by decide +kernel
+example : expiryOf (decodePayload (expiryProbe 18446744073709551615)) = some (-1000000000) := by decide +kernel
+example : expiryOf (decodePayload (expiryProbe (toU64 (-9223372036)))) = some (-9223372036000000000) := by decide +kernel
+example : decodePayload (expiryProbe (toU64 (-9223372037))) = .invalidArg := by decide +kernel
+/-- a payload cut by one byte is refused, not read past -/
+example : decodePayload ((expiryProbe 0).take 94) = .invalidArg ∧ (expiryProbe 0).length = 95 := by decide +kernel
 
 end EphVerif.C18
